@@ -336,7 +336,7 @@ Proof.
     destruct (max_buffered <? f_len f); [apply init_fail_gate; auto|].
     match goal with |- gate_inv (if _ then _ else init_fail ?x) => remember x as s2 eqn:Hs2 end.
     assert (Hc : same_ctl (set_peer_sent (peer_sent s ++ [f]) s) s2 /\ callers s2 = callers s).
-    { subst s2. destruct (typed_handler cfg (f_typ f)) as [k|]; [|split; [apply same_ctl_refl|reflexivity]].
+    { subst s2. destruct (first_handler cfg (f_typ f)) as [k|]; [|split; [apply same_ctl_refl|reflexivity]].
       destruct k; try (split; [same_ctl_tac|reflexivity]).
       split; [eapply same_ctl_trans; [|apply ack_enqueue_same_ctl]; same_ctl_tac|].
       match goal with |- callers (ack_enqueue ?i ?x) = _ => destruct (ack_enqueue_callers i x) as (E & _); rewrite E end. reflexivity. }
